@@ -275,7 +275,8 @@ fn trace(mode: Mode, src: &str, ops: &[&str]) -> String {
         let mut l = LinearLocator::new(src);
         l.fold(tree).unwrap()
     });
-    let got: Vec<String> = verif_trace::drain().iter().map(show_event).collect();
+    let events = verif_trace::drain();
+    let got: Vec<String> = events.iter().map(show_event).collect();
     for (i, g) in got.iter().enumerate() {
         if ops.get(i) != Some(&g.as_str()) {
             return format!("diff@{}:{}", i, g);
@@ -284,7 +285,24 @@ fn trace(mode: Mode, src: &str, ops: &[&str]) -> String {
     if got.len() != ops.len() {
         return format!("len {} expected {}", got.len(), ops.len());
     }
-    format!("ok {}", got.len())
+    // is the recorded history a forward one (the hypothesis of the Lean theorem `linear_eq_spec`)?
+    // offsets on character boundaries, not between CR and LF, `locate` never behind the cursor
+    // (which starts after a leading BOM), `locate_only` never behind it either
+    let b = src.as_bytes();
+    let mut cursor: usize = if src.starts_with('\u{feff}') { 3 } else { 0 };
+    let mut fwd = true;
+    for e in &events {
+        let o = e.offset as usize;
+        let in_domain = src.is_char_boundary(o) && !(o > 0 && o < b.len() && b[o - 1] == b'\r' && b[o] == b'\n');
+        if !in_domain || o < cursor {
+            fwd = false;
+            break;
+        }
+        if !e.only {
+            cursor = o;
+        }
+    }
+    format!("ok {} fwd={}", got.len(), fwd)
 }
 
 fn locseq(text: &str, ops: &[&str]) -> String {
